@@ -136,7 +136,7 @@ func walkReplay(e *env) error {
 	binEvery := e.argInt("binary_every", 0)
 	layouts := []string{"2006/01/02"}
 	if e.sum.Mode == "walk-layouts" {
-		layouts = []string{"2006-01-02", "02.01.2006", "02 Jan 2006", "06/01/02"}
+		layouts = []string{"2006-01-02", "02.01.2006", "02 Jan 2006", "06/01/02", "2006/02/01"} // the last one: year/day/month, which the default layout also parses (differently) for days <= 12
 	}
 	byZone := map[int][]int{}
 	stride := e.argInt("stride", 1)
